@@ -2,6 +2,8 @@
 (* run_valid.ml - dispatch of the valid slice (RfcValid.v, ValidateImpl.v); compiled after model_valid.ml, helpers.ml,
    tree_io.ml. Case line (also a script of impl/t_valid.c, which skips the fields starting with #):
      valid TAB #s <schema line> TAB #n <names> TAB #t <schema tree> TAB #u <uniques> TAB ... #d <dump with flags> ...
+   A #a field (dump AFTER a successful validation of an edited tree) gives one more item  A:<rfc_valid>:<rules>.
+   rfc_valid and the rules are evaluated on the explicit nodes (nodes flagged LYD_DEFAULT dropped).
    For every #d field (a dump printed by t_valid's  dump t<k> 1: flags d = LYD_DEFAULT, n = LYD_NEW) the answer has one
    item  <impl_validate verdict>:<rfc_valid 0|1>:<violated rules>:<placed 0|1>  (items joined by " | "):
      verdict  0 | dup dupcase nomand nomandchoice nomin nomax nouniq nokey type fuel
@@ -119,11 +121,14 @@ let run (f : string list) : string =
          let vs = { vs_info = sch; vs_tree = parse_stree (field rest "t"); vs_uniq = parse_uniq (field rest "u") } in
          let one d =
            let vf = parse_vdump nt d in
-           let ef = List.map erase vf in
+           let ef = explicit vf in
            let v = match impl_validate vs vf with VOk -> "0" | VErr e -> class_of e in
-           Printf.sprintf "%s:%d:%s:%d" v (if rfc_valid ty_true vs ef then 1 else 0) (rules vs ef)
-             (if placed vs ef then 1 else 0) in
-         String.concat " | " (List.map one (fields_all rest "d"))
+           Printf.sprintf "%s:%d:%s:%d" v (if rfc_valid ty_true vs ef then 1 else 0) (rules vs (prune vs ef))
+             (if placed vs (List.map erase vf) then 1 else 0) in
+         let after d =
+           let ef = explicit (parse_vdump nt d) in
+           Printf.sprintf "A:%d:%s" (if rfc_valid ty_true vs ef then 1 else 0) (rules vs (prune vs ef)) in
+         String.concat " | " (List.map one (fields_all rest "d") @ List.map after (fields_all rest "a"))
        with Tree_io m -> "E " ^ m)
   | _ -> "?"
 
